@@ -321,3 +321,18 @@ PROPS["C14"] = {
                   "lock-order graph: mutexes identified per struct field (type level); 1 self-loop that exists only through interface dispatch (storageCacherAdapter wrapping its own type) set aside and listed",
                   "schedules explored are those the Go scheduler produces under the delay plan: a sample, not all"],
 }
+
+
+# component name -> (Coq module, component value) for the in-Coq cross-check of the extracted runner
+COMPONENT_COQ = {
+    "shardid": ("Persist.ShardIdComp", "shardid_component"),
+    "pool": ("Txcache.PoolComp", "pool_component"),
+    "timecache": ("Time.TimeCacheComp", "timecache_component"),
+    "unit": ("Unit.UnitComp", "unit_component"),
+    "persist": ("Persist.PersistComp", "persist_component"),
+    "fifo": ("Fifo.FifoComp", "fifo_component"),
+    "lru": ("Lru.LruComp", "lru_component"),
+    "adapter": ("Lru.AdapterComp", "adapter_component"),
+    "immunity": ("Immunity.ImmunityComp", "immunity_component"),
+    "crash": ("Persist.CrashComp", "crash_component"),
+}
